@@ -11,7 +11,8 @@ use serde_json::{Value, json};
 use std::ffi::OsString;
 use std::path::Path;
 
-const EXE_NAMES: [&str; 5] = ["detect", "build", "vbp", "detect.sh", "Build"];
+/// the last four: argv[0] without a file-name component while the executable file itself is called build / detect
+const EXE_NAMES: [&str; 9] = ["detect", "build", "vbp", "detect.sh", "Build", "@arg0::build", "@arg0:/:build", "@arg0:..:build", "@arg0::detect"];
 #[allow(dead_code)]
 const ENV_VARS: [&str; 6] = ["CNB_BUILDPACK_DIR", "CNB_TARGET_OS", "CNB_TARGET_ARCH", "CNB_TARGET_ARCH_VARIANT", "CNB_TARGET_DISTRO_NAME", "CNB_TARGET_DISTRO_VERSION"];
 
@@ -327,7 +328,7 @@ fn check_row_pure(scratch: &Path, r: &Row) -> Check {
     } else {
         let _ = std::fs::remove_dir_all(&d.platform);
     }
-    let is_build = name == "build";
+    let is_build = name == "build" || name.ends_with(":build");
     // in build the third argument is the buildpack plan (an input), in detect the second one is the build plan (an output)
     if is_build {
         match r.buildpack_plan {
@@ -689,7 +690,7 @@ fn classify(ctx: &Ctx, r: &Row) {
 }
 
 pub fn run(ctx: &Ctx) {
-    ctx.set_rule("rows of the product: executable name {detect, build, vbp, detect.sh, Build} x argument count 0..5 x buildpack.toml {api 0.10, 00.010, 0.9, 0.11, 1, 0.10.0, non-string api, api missing, malformed, file missing, api ok but rest invalid} x presence of each of CNB_BUILDPACK_DIR, CNB_TARGET_OS/ARCH/ARCH_VARIANT/DISTRO_NAME/DISTRO_VERSION x scripted behaviour (detect: pass, pass+generated plan, fail, error; build: every subset of {launch, store, build SBOM formats, launch SBOM formats}, buildpack error, layer error from a real failing layer request) x pre-existing output files {absent, zero-length, sentinel bytes, a directory in the way} x CNB_TARGET_OS in {linux, windows, darwin, ''} x inputs (platform dir missing, non-UTF-8 platform env file, buildpack plan missing/malformed/unknown key, store.toml missing/valid/malformed/not UTF-8), each executed as a real process through a symlink. All single-dimension deviations from the all-valid rows are enumerated exhaustively, the rest of the product is sampled. Where the statement is silent (api with leading zeros, empty CNB_TARGET_OS, missing <platform>, non-UTF-8 platform env value handed on, a directory at store.toml, invalid descriptor combined with missing env) each compatible behaviour is accepted. Oracle: independent decision table over exit code, marker files written on entering detect/build/on_error, output files decoded by Python tomllib, and a snapshot differential of the scenario directory. Non-trivial: the row reaches buildpack code, or differs from the all-valid row in exactly one dimension; distinct = hash of the row.");
+    ctx.set_rule("rows of the product: executable name {detect, build, vbp, detect.sh, Build, and argv[0] = '' / '/' / '..' with the executable file itself called build or detect} x argument count 0..5 x buildpack.toml {api 0.10, 00.010, 0.9, 0.11, 1, 0.10.0, non-string api, api missing, malformed, file missing, api ok but rest invalid} x presence of each of CNB_BUILDPACK_DIR, CNB_TARGET_OS/ARCH/ARCH_VARIANT/DISTRO_NAME/DISTRO_VERSION x scripted behaviour (detect: pass, pass+generated plan, fail, error; build: every subset of {launch, store, build SBOM formats, launch SBOM formats}, buildpack error, layer error from a real failing layer request) x pre-existing output files {absent, zero-length, sentinel bytes, a directory in the way} x CNB_TARGET_OS in {linux, windows, darwin, ''} x inputs (platform dir missing, non-UTF-8 platform env file, buildpack plan missing/malformed/unknown key, store.toml missing/valid/malformed/not UTF-8), each executed as a real process through a symlink. All single-dimension deviations from the all-valid rows are enumerated exhaustively, the rest of the product is sampled. Where the statement is silent (api with leading zeros, empty CNB_TARGET_OS, missing <platform>, non-UTF-8 platform env value handed on, a directory at store.toml, invalid descriptor combined with missing env) each compatible behaviour is accepted. Oracle: independent decision table over exit code, marker files written on entering detect/build/on_error, output files decoded by Python tomllib, and a snapshot differential of the scenario directory. Non-trivial: the row reaches buildpack code, or differs from the all-valid row in exactly one dimension; distinct = hash of the row.");
     ctx.assume("CNB_TARGET_DISTRO_NAME/VERSION count as mandatory environment (libcnb documents them as mandatory although the spec calls them optional), for every value of CNB_TARGET_OS");
     ctx.assume("feature `trace` off; argv and paths are UTF-8");
     let scratch = Scratch::new("c05");
